@@ -7,6 +7,7 @@ import os
 from fractions import Fraction
 
 from ..core import frac
+from .. import cwiter
 
 LEVEL = "proof"
 RULE = ("one call of one estimator / smoother per case, plus the same call on the shifted (a+c) and rescaled (k*a) "
@@ -546,6 +547,11 @@ def gen_cases(rng, tier):
                 continue
         i = {"name": nm, "a": a, "w": w, "c": 1.0, "k": 2.0, "exact": True, "malformed": True}
         cases.append({"op": "loc" if nm == "weighted_median" else "scale", "tag": nm + "-malformed", "in": i})
+    # round 5b: convolve_weighted called directly, n_iter = 0..4 (harness/cwiter.py); drawn last, so the cases above
+    # are the same as before for a given seed
+    cases.extend(cwiter.gen_cases(rng, tier))
+    if os.environ.get("VERIF_C19_ONLY"):   # development / mutation tests: a restricted run
+        cases = [c for c in cases if c["op"] == os.environ["VERIF_C19_ONLY"]]
     return cases
 
 
@@ -623,6 +629,8 @@ def run_impl(case):
     import numpy as np
     from cnvlib import descriptives as D, smoothing as S
 
+    if case["op"] == "cw_iter":
+        return cwiter.run_impl(case)
     op, i = case["op"], case["in"]
     name = i["name"]
     rep, wrep, rseed = i.get("rep"), i.get("wrep"), i.get("rseed", 0)
@@ -767,6 +775,8 @@ def _fr(v):
 
 
 def to_line(case, impl):
+    if case["op"] == "cw_iter":
+        return cwiter.to_line(case, impl)
     op, i = case["op"], case["in"]
     err = isinstance(impl, dict) and "__error__" in impl
     inp = {"name": i["name"], "prefix": PREFIX}
@@ -821,6 +831,8 @@ def _close(x, q, tol=1e-9):
 
 
 def judge(case, impl, resp):
+    if case["op"] == "cw_iter":
+        return cwiter.judge(case, impl, resp)
     op, i = case["op"], case["in"]
     out = resp.get("out")
     model_err = out.get("error") if isinstance(out, dict) else None
@@ -912,6 +924,12 @@ def classify_savgol_zero_denominator(case, impl, resp):
 
 
 def shrink(case):
+    if case["op"] == "cw_iter" and not case.get("_cw"):
+        # np.convolve(mode="same") swaps its arguments when the signal is shorter than the window: outside the model
+        for c in shrink(dict(case, _cw=True)):
+            if len(c["in"]["x"]) >= len(c["in"]["window"]) and len(c["in"]["w"]) >= len(c["in"]["window"]):
+                yield c
+        return
     i = case["in"]
     keys = [k for k in ("a", "w", "x") if k in i and isinstance(i[k], list)]
     main = "a" if "a" in i else "x"
